@@ -319,7 +319,7 @@ class State:
             t0 = time.time()
             if z3.is_true(formula):
                 ob.status = "discharged"
-            elif getattr(self.cfg, "ground_first", False) and self._check_ground(z3.Not(formula), min(3000, self.cfg.oblig_timeout_ms)) == z3.unsat:
+            elif getattr(self.cfg, "ground_first", False) and not _has_quantifier(formula) and self._check_ground(z3.Not(formula), min(3000, self.cfg.oblig_timeout_ms)) == z3.unsat:
                 ob.status, ob.backend = "discharged", "z3-ground"
             else:
                 r, model = self._check(z3.Not(formula), self.cfg.oblig_timeout_ms)
